@@ -200,6 +200,68 @@ type widthAnalysis struct {
 
 // counterMax: v is a counter phi(c0, v+k) (k > 0) whose increments are guarded by `v < U` / `v >= U -> exit`;
 // returns the maximal value it can take at its uses.
+// counterMaxAt: the largest value the counter can have at instruction `at`: counterMax refined by the comparisons
+// `v < K` / `v <= K` whose edges dominate `at`, rounded down to the counter's residue class.
+func (w *widthAnalysis) counterMaxAt(v ssa.Value, at ssa.Instruction) (int64, bool) {
+	m, ok := w.counterMax(v)
+	if !ok {
+		return 0, false
+	}
+	phi := v.(*ssa.Phi)
+	f := phi.Parent()
+	var c0, step int64 = 0, 0
+	for _, e := range phi.Edges {
+		if k, ok := constInt(e); ok {
+			c0 = k
+		} else if d, ok := offsetFrom(e, phi); ok {
+			step = d
+		}
+	}
+	if step <= 0 {
+		return m, true
+	}
+	for _, blk := range f.Blocks {
+		iff := blockIf(blk)
+		if iff == nil {
+			continue
+		}
+		bin, ok := iff.Cond.(*ssa.BinOp)
+		if !ok || bin.X != ssa.Value(phi) {
+			continue
+		}
+		k, ok := constInt(bin.Y)
+		if !ok {
+			continue
+		}
+		for edge := 0; edge < 2; edge++ {
+			if !DominatedByEdge(f, at, blk, edge, PathQ{}) {
+				continue
+			}
+			u := int64(-1)
+			switch {
+			case bin.Op == token.LSS && edge == 0, bin.Op == token.GEQ && edge == 1:
+				u = k - 1
+			case bin.Op == token.LEQ && edge == 0, bin.Op == token.GTR && edge == 1:
+				u = k
+			case bin.Op == token.EQL && edge == 0, bin.Op == token.NEQ && edge == 1:
+				u = k
+			}
+			if u < 0 {
+				continue
+			}
+			if u >= c0 {
+				u = c0 + ((u-c0)/step)*step
+			} else {
+				u = c0
+			}
+			if u < m {
+				m = u
+			}
+		}
+	}
+	return m, true
+}
+
 func (w *widthAnalysis) counterMax(v ssa.Value) (int64, bool) {
 	phi, ok := v.(*ssa.Phi)
 	if !ok {
@@ -371,7 +433,7 @@ func (w *widthAnalysis) width1(v ssa.Value) int {
 			if k, ok := constInt(x.Y); ok {
 				return a + int(k)
 			}
-			if m, ok := w.counterMax(x.Y); ok {
+			if m, ok := w.counterMaxAt(x.Y, x); ok {
 				return a + int(m)
 			}
 			if w.note == "" {
@@ -431,16 +493,76 @@ func (w *widthAnalysis) width1(v ssa.Value) int {
 
 // ---- R-C06-3 -----------------------------------------------------------------------------------------------
 
+func derefNamedStruct(t types.Type) (*types.Struct, bool) {
+	if p, ok := t.(*types.Pointer); ok {
+		t = p.Elem()
+	}
+	st, ok := t.Underlying().(*types.Struct)
+	return st, ok
+}
+
 func (c *Ctx) rulePanicSources(rr *RuleRep, rs []*ssa.Function) {
 	tableFn := map[string]string{
 		"(*pktPublish).Pack":   "write side: invalid-QoS panic concerns application-supplied messages (validated by ValidateMessage), not peer bytes",
 		"(*pktSubscribe).Pack": "write side: invalid-QoS panic concerns application-supplied subscriptions, not peer bytes",
 	}
-	if f := c.Func("remainingLength"); f != nil {
-		tableFn[FuncName(f)] = "write side: reached from serve only through the 2-byte acknowledgement bodies (pack(type, packUint16(id))); the overflow panic needs a body above 268,435,455 bytes"
+	// encode side: functions the read side reaches only through a packet's Pack method. What serve packs are the
+	// fixed-size acknowledgements (checked below: the packed structs carry only scalar fields); what subscribeImpl packs is
+	// the application's SUBSCRIBE. Overflow panics of the encoders therefore concern application data, not peer bytes.
+	isPack := func(g *ssa.Function) bool {
+		return g.Name() == "Pack" && g.Signature.Recv() != nil && strings.HasPrefix(typeName(g.Signature.Recv().Type()), "pkt")
 	}
-	if f := c.Func("appendBytes"); f != nil {
-		tableFn[FuncName(f)] = "write side: length-prefix overflow panic concerns application-supplied strings, not peer bytes"
+	var roots []*ssa.Function
+	roots = append(roots, c.Method("BaseClient", "serve"))
+	if f := c.Func("subscribeImpl"); f != nil {
+		roots = append(roots, f)
+	}
+	regionWithoutPack := func(rts []*ssa.Function) map[*ssa.Function]bool {
+		seen := map[*ssa.Function]bool{}
+		var work []*ssa.Function
+		for _, r := range rts {
+			if r != nil {
+				seen[r] = true
+				work = append(work, r)
+			}
+		}
+		for len(work) > 0 {
+			f := work[len(work)-1]
+			work = work[:len(work)-1]
+			for _, g := range c.calleesOf(f, false) {
+				if !seen[g] && !isPack(g) {
+					seen[g] = true
+					work = append(work, g)
+				}
+			}
+		}
+		return seen
+	}
+	withoutPack := regionWithoutPack(roots)
+	// what the reader goroutine itself packs: only structs of fixed-size scalars (the acknowledgements)
+	fixedAcks := true
+	for f := range regionWithoutPack(roots[:1]) {
+		for _, g := range c.calleesOf(f, false) {
+			if !isPack(g) {
+				continue
+			}
+			st, ok := derefNamedStruct(g.Signature.Recv().Type())
+			if !ok {
+				fixedAcks = false
+				continue
+			}
+			for i := 0; i < st.NumFields(); i++ {
+				b, isBasic := st.Field(i).Type().Underlying().(*types.Basic)
+				if !isBasic || b.Info()&types.IsString != 0 {
+					fixedAcks = false
+				}
+			}
+		}
+	}
+	for _, f := range rs {
+		if !withoutPack[f] && !isPack(f) && fixedAcks {
+			tableFn[FuncName(f)] = "encode side: reached from the read side only through Pack methods (fixed-size acknowledgements from serve, the application's own SUBSCRIBE from Subscribe); its overflow panic concerns application data, not peer bytes"
+		}
 	}
 	// channels that are ever closed
 	closedFields := map[*types.Var]bool{}
